@@ -153,6 +153,16 @@ simple!(SimRes, |context, args| {
     Ok(ExecutionResult::new(status))
 });
 
+// simsnap TAG: record a full state snapshot of the executing shell.
+simple!(SimSnap, |context, args| {
+    let tag = args.first().cloned().unwrap_or_default();
+    world::yield_point(world::OP_PROBE, 2, 0);
+    let snap = crate::runner::snapshot(context.shell);
+    let status = context.shell.last_exit_status();
+    world::probe_event(format!("snap:{tag}"), status, context.shell.depth(), vec![], vec![snap.to_string()]);
+    Ok(ExecutionResult::new(status))
+});
+
 pub fn register<SE: ShellExtensions>(
     map: &mut std::collections::HashMap<String, builtins::Registration<SE>>,
 ) {
@@ -162,5 +172,6 @@ pub fn register<SE: ShellExtensions>(
     map.insert("simhead".into(), builtins::simple_builtin::<SimHead, SE>());
     map.insert("simexit".into(), builtins::simple_builtin::<SimExit, SE>());
     map.insert("simsleep".into(), builtins::simple_builtin::<SimSleep, SE>());
+    map.insert("simsnap".into(), builtins::simple_builtin::<SimSnap, SE>());
     map.insert("simres".into(), builtins::simple_builtin::<SimRes, SE>());
 }
